@@ -269,7 +269,7 @@ var umValues = []umVal{
 }
 
 // field names a document may carry, and the keys (keyPool indexes) a definition / custom list may carry
-var umNames = []string{"s", "n", "i8", "u8", "f32", "f64", "b", "any", "myint", "mystr", "p", "ints", "msi", "arr", "arr3", "pn", "ps", "pp", "pmi", "zz", "http_status", "log_level"}
+var umNames = []string{"s", "n", "i8", "u8", "f32", "f64", "b", "any", "myint", "mystr", "p", "ints", "msi", "arr", "arr3", "pn", "ps", "pp", "pmi", "zz", "http_status", "log_level", "N", "S", "F32"}
 var umKeys = []int{0, 29, 2, 30, 39, 4, 9, 13, 14, 15, 19, 21, 22, 24, 26, 27, 28, 32, 33, 34, 35, 36}
 
 // ---------- document DSL ----------
